@@ -556,6 +556,16 @@ func genPlan(prop, tier string, seed uint64, faults bool) *Plan {
 			}
 			g.podLive[op.ID] = false
 		}
+		if g.faults {
+			// fault-injecting batch: the runtime refuses an unsolicited
+			// UpdateContainers push; a RunPodSandbox event is lost
+			switch {
+			case (op.Kind == "reconfigure" || op.Kind == "coldstart-done") && r.Chance(0.35):
+				op.Fault = "stub.update-error"
+			case op.Kind == "run-pod" && r.Chance(0.06):
+				op.Fault = "nri.drop"
+			}
+		}
 		p.Ops = append(p.Ops, op)
 	}
 	for i := range p.Ops {
